@@ -288,14 +288,21 @@ def bool_place_edges(body, place_pred):
         if p is None:
             continue
         neg = False
-        l = p["l"]
-        if not p.get("p"):
-            d = du.single_def(l)
-            if d and d[0] == "stmt" and d[3]["rv"]["k"] == "unop" and d[3]["rv"]["op"] == "Not":
-                neg = True
-                p = op_place(d[3]["rv"]["a"])
-                if p is None:
-                    continue
+        # follow copies and negations back to the place the boolean was loaded from
+        for _ in range(16):
+            if p.get("p"):
+                break
+            d = du.single_def(p["l"])
+            if not d or d[0] != "stmt":
+                break
+            rv = d[3]["rv"]
+            if rv["k"] == "unop" and rv["op"] == "Not" and op_place(rv["a"]) is not None:
+                neg = not neg
+                p = op_place(rv["a"])
+            elif rv["k"] == "use" and op_place(rv["op"]) is not None:
+                p = op_place(rv["op"])
+            else:
+                break
         r = root_place(body, p)
         if not place_pred(r):
             continue
@@ -317,3 +324,81 @@ def call_bool_edges(body, bi):
     """(true_edges, false_edges) of switches testing the bool returned by the call in block bi."""
     oc = success_edges(body, bi)
     return oc.ok_edges, oc.err_edges
+
+
+NEG_REL = {"Lt": "Ge", "Le": "Gt", "Gt": "Le", "Ge": "Lt", "Eq": "Ne", "Ne": "Eq"}
+MIRROR_REL = {"Lt": "Gt", "Le": "Ge", "Gt": "Lt", "Ge": "Le", "Eq": "Eq", "Ne": "Ne"}
+
+
+def compare_switches(body):
+    """Every SwitchInt that tests the result of an integer comparison (through copies and negations):
+    list of (switch block, rel, a operand, b operand, true_edges, false_edges) meaning `a rel b` on the true edges
+    and the negated relation on the false edges."""
+    du = defuse(body)
+    out = []
+    for bi in sorted(body.cfg.reach):
+        t = body.blocks[bi]["term"]
+        if t["k"] != "switch":
+            continue
+        p = op_place(t["discr"])
+        if p is None:
+            continue
+        neg = False
+        cmp_stmt = None
+        for _ in range(16):
+            if p.get("p"):
+                break
+            d = du.single_def(p["l"])
+            if not d or d[0] != "stmt":
+                break
+            rv = d[3]["rv"]
+            if rv["k"] == "unop" and rv["op"] == "Not" and op_place(rv["a"]) is not None:
+                neg = not neg
+                p = op_place(rv["a"])
+            elif rv["k"] == "use" and op_place(rv["op"]) is not None:
+                p = op_place(rv["op"])
+            elif rv["k"] == "binop" and rv["op"] in NEG_REL:
+                cmp_stmt = rv
+                break
+            else:
+                break
+        if cmp_stmt is None:
+            continue
+        te, fe = set(), set()
+        nv = len(t["values"])
+        for k, v in enumerate(t["values"]):
+            ((te if (v != 0) != neg else fe)).add(("e", bi, k))
+        e = ("e", bi, nv)
+        if t["values"] == [0]:
+            (fe if neg else te).add(e)
+        elif t["values"] == [1]:
+            (te if neg else fe).add(e)
+        out.append((bi, cmp_stmt["op"], cmp_stmt["a"], cmp_stmt["b"], te, fe))
+    return out
+
+
+def edges_where(body, place_pred, rel, bound):
+    """Edges on which `x rel bound` is known to hold for the integer place x selected by place_pred (rel in Lt/Ge
+    ..., bound a constant): recognises the comparison in either operand order, negated, and in the equivalent
+    off-by-one spelling (x < c  ==  x <= c-1)."""
+    from .facts import op_const as _c
+    res = set()
+    for (bi, op, a, b, te, fe) in compare_switches(body):
+        ca, cb = _c(a), _c(b)
+        if cb is not None and op_place(a) is not None and place_pred(root_place(body, op_place(a))):
+            r, c = op, cb
+        elif ca is not None and op_place(b) is not None and place_pred(root_place(body, op_place(b))):
+            r, c = MIRROR_REL[op], ca
+        else:
+            continue
+        for edges, rr in ((te, r), (fe, NEG_REL[r])):
+            # normalise <= / > to < / >=
+            if rr == "Le":
+                rr, cc = "Lt", c + 1
+            elif rr == "Gt":
+                rr, cc = "Ge", c + 1
+            else:
+                cc = c
+            if rr == rel and cc == bound:
+                res |= edges
+    return res
